@@ -46,6 +46,7 @@ class Operands:
             st = new_stats()
             for c in m.generate(rng, per, tier, st):
                 if 'ins' not in c or 'ops' not in c: continue
+                if any(o[0] in ('rename_axis', 'set_label', 'set_dims') for o in c['ops']): continue    # in-place edits of the operand
                 stats['operand_source'][src] += 1
                 for o in c['ops']: stats['operand_op'][o[0]] += 1
                 cases.append({'src': src, 'ins': c['ins'], 'ops': c['ops']})
@@ -78,6 +79,9 @@ class Operands:
                 # further non-in-place operations on the same operands: serialisation, Dataset construction and use, comparison, unary ops
                 for x in ins:
                     for f in (lambda: x.to_json(), lambda: x.to_jsondict(), lambda: D.Dataset({'v': x}), lambda: D.Dataset({'v': x}).to_array(),
+                              # building a new array from the operand with metadata keywords (new key, and an existing key overwritten)
+                              lambda: D.DimArray(x, verif_added=1), lambda: D.array(x, verif_added=2),
+                              lambda: D.DimArray(x, **dict((k, 'overwritten') for k in list(x.attrs)[:1] if isinstance(k, str) and k.isidentifier())),
                               lambda: x == x, lambda: -x, lambda: abs(x), lambda: repr(x), lambda: x.to_pandas() if x.ndim in (1, 2) else None,
                               lambda: x.sort_axis(axis=0) if x.ndim else None, lambda: D.align([x, x.ix[::-1] if x.ndim else x], sort=True),
                               # aligning with partners that are empty / reversed / disjoint along each dimension, sorted and not
